@@ -115,14 +115,15 @@ def set_ip(f, vm, lam):
     f.set_field(vm, 'Vm', 'ip', Agg('tuple', None, [lam, 0]))
 
 
-def make_harness(prog, depth, fail, nfail):
+def make_harness(prog, depth, fail, nfail, slice_=None):
+    """slice_: the failing evaluations run in slices of that many instructions (run_count(slice_) until done)"""
     fab = Fab(prog)
     RUN_COUNT = prog.resolve_crate('Vm::run_count')
 
     def harness(it):
         f = fab
         value = z3.BitVec('value', 64)
-        it.ghost['shape'] = (depth, fail, nfail)
+        it.ghost['shape'] = (depth, fail, nfail, slice_)
         # reference: a VM that never failed runs the two later evaluations
         ref, _, e2, e3 = build(f, depth, fail, value)
         rb = Cell(ref)
@@ -142,7 +143,12 @@ def make_harness(prog, depth, fail, nfail):
         outcomes = []
         for k in range(nfail):
             set_ip(f, vb.v, e1)
-            r = vmstep.result_cell(it, it.call(RUN_COUNT, [Ref(vb), USIZE_MAX]))
+            nsl = 0
+            while True:
+                r = vmstep.result_cell(it, it.call(RUN_COUNT, [Ref(vb), USIZE_MAX if slice_ is None else slice_]))
+                nsl += 1
+                if r[0] != 'none' or nsl > 200: break
+            it.ghost.setdefault('slices', []).append(nsl)
             if r[0] != 'err' and fail != 'symbolic-target': return viol(it, 'the failing program did not fail (%s)' % (r[0],), 'harness')
             outcomes.append(r[0] if r[0] != 'err' else 'err%d' % r[1])
             sps.append(regs(f, vb.v))
@@ -170,7 +176,7 @@ def make_harness(prog, depth, fail, nfail):
         m = it.witness()
         v = m.eval(z3.BitVec('value', 64), model_completion=True).as_long() if m is not None else 0
         t = m.eval(z3.BitVec('target', 64), model_completion=True).as_long() if m is not None else 0
-        return {'what': what, 'key': key, 'request': {'cmd': 'c07', 'depth': depth, 'fail': fail, 'nfail': nfail, 'value': v, 'target': t}}
+        return {'what': what, 'key': key, 'request': {'cmd': 'c07', 'depth': depth, 'fail': fail, 'nfail': nfail, 'value': v, 'target': t, 'slice': slice_, 'slices': it.ghost.get('slices')}}
     return harness
 
 
@@ -188,12 +194,25 @@ def native_verdict(prog, replay, req):
             return _z.BitVecVal(req.get('target', 0), 64)
     text = vmfab.show_vm(fab, vm, M())
     ref = replay.ask('script %s setip:%d:0 run:0 setip:%d:0 run:0' % (hexs(text), e2, e3))
-    ops = ' '.join(['setip:%d:0 run:0' % e1] * req['nfail'] + ['setip:%d:0 run:0' % e2, 'setip:%d:0 run:0' % e3])
+    if req.get('slice'):
+        # sliced failing evaluations: as many run:<slice> ops as the symbolic run needed; only the last summary of each evaluation counts
+        sl = req.get('slices') or []
+        fops, keep, pos = [], [], 0
+        for k in range(req['nfail']):
+            n = sl[k] if k < len(sl) else 1
+            fops += ['setip:%d:0' % e1] + ['run:%d' % req['slice']] * n
+            pos += n; keep.append(pos - 1)
+        ops = ' '.join(fops + ['setip:%d:0 run:0' % e2, 'setip:%d:0 run:0' % e3])
+    else:
+        keep = None
+        ops = ' '.join(['setip:%d:0 run:0' % e1] * req['nfail'] + ['setip:%d:0 run:0' % e2, 'setip:%d:0 run:0' % e3])
     out = replay.ask('script %s %s' % (hexs(text), ops))
     if out.startswith(('PANIC', 'ABORT')): return True, 'sequence panics natively: ' + out
     if not out.startswith('OK ') or not ref.startswith('OK '): return None, 'native replay failed: %s / %s' % (out, ref)
     rs = ref.split()[1:3]
-    os_ = out.split()[1:1 + req['nfail'] + 2]
+    toks = out.split()[1:-1]
+    if keep is not None: toks = [toks[i] for i in keep] + toks[-2:]
+    os_ = toks[:req['nfail'] + 2]
     def tail(x): return x.split('/', 1)[1]       # frames/sp/bp/ep
     fails = os_[:req['nfail']]
     for k, x in enumerate(fails):
@@ -221,6 +240,21 @@ def run(chk, ws, prog, tier, replays):
                 res = explore(prog, h, opts={'on_panic': on_panic, 'render_fmt': False}, quiet=True)
                 print('  harness %-58s %s' % (name, res.summary()), flush=True)
                 chk.add_result(name, res, FUNCTIONS, {'call_depth': depth, 'error_source': fail, 'consecutive_failures': nfail, 'symbolic': 'call target (heap index over procedures of arity 0/1/2, a number, a string, nil) for error source symbolic-target; the value of the later evaluation'}, nontrivial=res.completed)
+                for v in res.violations:
+                    if seen.get(v['key'], 0) >= 3: continue
+                    seen[v['key']] = seen.get(v['key'], 0) + 1
+                    b1, d1 = native_verdict(prog, dev, v['request'])
+                    b2, d2 = native_verdict(prog, rel, v['request'])
+                    if b1 is None and b2 is None:
+                        chk.inconclusive.append('%s: %s' % (name, d1)); continue
+                    chk.violation(v['key'], (d1 if b1 else d2) + ' | ' + v['what'], v['request'], bool(b1) or bool(b2))
+    for depth in (1, 2):
+        for fail in FAILS:
+            for sl in ((2,) if tier == 'quick' else (1, 2, 3)):
+                name = 'failed-sliced-evaluation/depth=%d/%s/slice=%d' % (depth, fail, sl)
+                res = explore(prog, make_harness(prog, depth, fail, 1, slice_=sl), opts={'on_panic': on_panic, 'render_fmt': False}, quiet=True)
+                print('  harness %-58s %s' % (name, res.summary()), flush=True)
+                chk.add_result(name, res, FUNCTIONS, {'call_depth': depth, 'error_source': fail, 'slice_budget': sl}, nontrivial=res.completed)
                 for v in res.violations:
                     if seen.get(v['key'], 0) >= 3: continue
                     seen[v['key']] = seen.get(v['key'], 0) + 1
